@@ -2,6 +2,7 @@ import PxModel.Modes
 import PxProofs.ModesLemmas
 import PxProofs.C01
 import PxProofs.C07
+import PxProofs.C20
 /-!
 # C17 — threaded, local-threadless and remote-threadless modes behave identically
 
@@ -357,4 +358,60 @@ theorem C17_handoff_needs_lock :
     (hrun addrOutsideProg [0, 1, 0, 0, 0, 1, 1, 1]).lock = none := by
   decide
 
+/-- **C17 hand-off framing.**  Sender (`delegate_work_to_pool`) and receiver
+(`receive_from_work_queue`) both decide from the one flag `unix_socket_path` whether
+an address item precedes the descriptor.  For every value of the flag and every
+sequence of hand-offs of connections of either kind (accepted on a TCP listener,
+with an address, or on the unix listener, without) the receiver's reads line up:
+it gets every descriptor, in order, paired with its address exactly when the flag
+is off. -/
+theorem C17_handoff_framing (u : Bool) (hs : List (Nat × ConnKind)) :
+    recvFramed (receiverExpects u) (framedPipe senderSends u hs) =
+      some (hs.map (fun h => (if u then none else some h.1, h.1))) := by
+  induction hs with
+  | nil => simp [framedPipe, recvFramed]
+  | cons h hs ih =>
+    cases u <;>
+      simp [framedPipe, frame, senderSends, receiverExpects, recvFramed] at ih ⊢ <;> simp [ih]
+
+/-- **the two sides must use the same rule.**  If the sender sends the address
+whenever the connection has one while the receiver still goes by the flag, the first
+TCP client of a proxy started with `--unix-socket-path … --ports …` makes the worker
+read the pickled address where the descriptor message is due. -/
+theorem C17_handoff_framing_mismatch :
+    framedPipe senderSendsByAddr true [(0, .tcp), (1, .unix)] = [.addr 0, .fd 0, .fd 1] ∧
+    recvFramed (receiverExpects true) (framedPipe senderSendsByAddr true [(0, .tcp), (1, .unix)]) = none ∧
+    recvFramed (receiverExpects true) (framedPipe senderSends true [(0, .tcp), (1, .unix)]) =
+      some [(none, 0), (none, 1)] := by
+  decide
+
 end Px.Modes
+
+namespace Px.Idle
+
+/-- **C17 idle reaping in all modes (from C20).**  The only other place where the
+drivers differ is *when* `is_inactive()` is asked: the threaded loop at the top of
+every iteration, the executor every `period = 39` iterations of `_run_forever` — and
+the period is counted in ALL loop iterations, busy or not (`C20_cadence`,
+`C20_period_impl`).  Hence, with the constants of the implementation and iterations at
+most `D` apart, a connection idle with an empty buffer from `t0` is closed no later
+than `t0 + timeout + D` in threaded mode and no later than `t0 + timeout + 40·D` in
+both threadless modes (`C20_bound_threaded`, `C20_bound_threadless_impl`): the modes
+agree on "a connection silent past the timeout is dropped" up to that bounded
+delay.  (`Modes.shiftRounds` is the script-level form of the same correspondence.) -/
+theorem C17_idle_reaping_bounded (timeout : Int) (hT : 0 ≤ timeout) (D : Int) (hD : 0 ≤ D)
+    (t0 start : Int) (pre suf : List Ev) (hq : ∀ e ∈ suf, Quiet e) (hp : Paced D t0 suf) :
+    (IdleAt (run (implCfg timeout true) (init start) pre) t0 →
+      (∃ t, Ev.loopIter t ∈ suf ∧ t0 + timeout < t) →
+      ∃ t, (run (implCfg timeout true) (init start) (pre ++ suf)).status = .reaped t ∧
+        t ≤ t0 + timeout + D) ∧
+    (IdleAt (run (implCfg timeout false) (init start) pre) t0 →
+      (∃ t, Ev.loopIter t ∈ suf ∧ t0 + timeout + 40 * D < t + D) →
+      ∃ t, (run (implCfg timeout false) (init start) (pre ++ suf)).status = .reaped t ∧
+        t ≤ t0 + timeout + 40 * D) ∧
+    period (implCfg timeout false) = 39 :=
+  ⟨fun hi hr => C20_bound_threaded (t0 := t0) (implCfg timeout true) rfl hT D hD start pre suf hi hq hp hr,
+   fun hi hr => C20_bound_threadless_impl (t0 := t0) timeout hT D hD start pre suf hi hq hp hr,
+   C20_period_impl timeout⟩
+
+end Px.Idle
